@@ -1,10 +1,18 @@
 package traceql_parser
 
 import (
+	"fmt"
 	"github.com/alecthomas/participle/v2"
 )
 
+// MaxQueryLength bounds the text handed to the parser. The parser is recursive (nested parentheses, && / || chains),
+// so its stack grows with the text; a stack overflow is a fatal error that no recover can catch.
+const MaxQueryLength = 128 << 10
+
 func Parse(str string) (*TraceQLScript, error) {
+	if len(str) > MaxQueryLength {
+		return nil, fmt.Errorf("query too long: %d bytes (maximum %d)", len(str), MaxQueryLength)
+	}
 	res := &TraceQLScript{}
 	parser, err := participle.Build[TraceQLScript](participle.Lexer(TraceQLLexerDefinition), participle.UseLookahead(3))
 	if err != nil {
